@@ -157,6 +157,16 @@ fn script_from(v: &Value) -> Vec<Step> {
 }
 
 pub fn replay_c19(v: &Value) -> Vec<Failure> {
+    if v.get("kind").and_then(|k| k.as_str()) == Some("order") {
+        let a = v.get("hex").and_then(|h| h.as_str()).and_then(bits::unhex).unwrap_or_default();
+        let before: Vec<Vec<u8>> = v.get("before").and_then(|x| x.as_array()).map(|x| x.iter().filter_map(|h| h.as_str().and_then(bits::unhex)).collect()).unwrap_or_default();
+        return eval_order(&a, &before).into_iter().map(|(sig, msg)| Failure { sig, msg, replay: v.clone() }).collect();
+    }
+    if v.get("kind").and_then(|k| k.as_str()) == Some("stream") {
+        let frames: Vec<Vec<u8>> = v.get("frames").and_then(|x| x.as_array()).map(|a| a.iter().filter_map(|h| h.as_str().and_then(bits::unhex)).collect()).unwrap_or_default();
+        let dm = v.get("default_max").and_then(|x| x.as_u64()).unwrap_or(64) as usize;
+        return eval_stream(&frames, dm).into_iter().map(|(sig, msg)| Failure { sig, msg, replay: v.clone() }).collect();
+    }
     let Some(b) = bits::unhex(v.get("hex").and_then(|h| h.as_str()).unwrap_or("")) else { return vec![] };
     let sigs = if v.get("kind").and_then(|k| k.as_str()) == Some("offset") {
         let prefix = v.get("prefix").and_then(|h| h.as_str()).and_then(bits::unhex).unwrap_or_default();
@@ -188,6 +198,64 @@ fn eval_purity(b: &[u8], between: &[Vec<u8>]) -> Vec<(String, String)> {
     } else {
         vec![]
     }
+}
+
+/// decode `frames` in a fresh process, in this order; returns the Debug text of each
+fn fresh_process_decode(frames: &[&[u8]]) -> Option<Vec<String>> {
+    use std::io::Write;
+    let exe = std::env::current_exe().ok()?;
+    let mut child = std::process::Command::new(exe).arg("helper").stdin(std::process::Stdio::piped()).stdout(std::process::Stdio::piped()).stderr(std::process::Stdio::null()).spawn().ok()?;
+    let req = json!({"cmd": "debugdump", "frames": frames.iter().map(|b| bits::hex(b)).collect::<Vec<_>>()});
+    child.stdin.take()?.write_all(req.to_string().as_bytes()).ok()?;
+    let out = child.wait_with_output().ok()?;
+    let v: Value = serde_json::from_slice(&out.stdout).ok()?;
+    Some(v["frames"].as_array()?.iter().map(|x| x.as_str().unwrap_or("").to_string()).collect())
+}
+
+/// Decoding is a pure function of the bytes also across the life of a process: `a` decoded as the
+/// very first frame of a fresh process, and decoded after `before` in another fresh process,
+/// gives the same result (anything the decoder remembers between calls would show here).
+pub fn eval_order(a: &[u8], before: &[Vec<u8>]) -> Vec<(String, String)> {
+    let Some(alone) = fresh_process_decode(&[a]) else { return vec![] };
+    let mut seq: Vec<&[u8]> = before.iter().map(|b| b.as_slice()).collect();
+    seq.push(a);
+    let Some(after) = fresh_process_decode(&seq) else { return vec![] };
+    if alone.len() == 1 && after.len() == seq.len() && after[seq.len() - 1] != alone[0] {
+        vec![(format!("C19/order/{}", refdec::class_of(a).split('/').next().unwrap_or("")), format!("decoded first in a fresh process the frame gives `{}`; decoded after {} other frame(s) in a fresh process it gives `{}`", short(&alone[0]), before.len(), short(&after[seq.len() - 1])))]
+    } else {
+        vec![]
+    }
+}
+
+/// A capture: complete frames one after the other in one reader, decoded by calling
+/// `from_reader` repeatedly.  Every frame must come out as it does alone (formats whose frames
+/// the decoder reads completely: DF19 / DF20 leave their tail to a drain of the reader and end a
+/// capture here).
+pub fn eval_stream(frames: &[Vec<u8>], frag: usize) -> Vec<(String, String)> {
+    let mut stream = vec![];
+    for f in frames {
+        stream.extend_from_slice(f);
+    }
+    let script: [Step; 0] = [];
+    let res = catch_unwind(AssertUnwindSafe(|| {
+        let mut rd = Scripted::at(&stream, 0, &script, frag);
+        let mut out = vec![];
+        for _ in frames {
+            out.push(render(&Frame::from_reader(&mut rd).map_err(|e| format!("{e:?}"))));
+        }
+        out
+    }));
+    let got = match res {
+        Ok(g) => g,
+        Err(_) => return vec![("C19/panic/stream".into(), format!("from_reader panicked on a stream of {} frames: {}", frames.len(), last_panic()))],
+    };
+    for (i, f) in frames.iter().enumerate() {
+        let want = dec_bytes(f).unwrap_or_else(|p| format!("panic {p}"));
+        if got[i] != want {
+            return vec![(format!("C19/stream_differs/{}", refdec::class_of(f).split('/').next().unwrap_or("")), format!("frame {i} of a stream of {} complete frames ({} bytes per read): alone it decodes to `{}`, in the stream to `{}` (the frame before it: {})", frames.len(), frag, short(&want), short(&got[i]), if i > 0 { bits::hex(&frames[i - 1]) } else { "none".into() }))];
+        }
+    }
+    vec![]
 }
 
 /// frames of every accepted class: each has its own read/seek call pattern
@@ -319,6 +387,27 @@ pub fn run_c19(ctx: &mut Ctx) -> ! {
                         try_script(st, s, true);
                     }
                 }
+                // "however many": long runs of Interrupted before the first, a middle and the last
+                // read call, and five before every single call
+                for k in [0, nreads / 2, nreads] {
+                    for run in [70usize, 300] {
+                        let mut s = base.clone();
+                        for _ in 0..run {
+                            s.insert(k.min(s.len()), Step::Interrupt);
+                        }
+                        try_script(st, s, true);
+                    }
+                }
+                {
+                    let mut s = vec![];
+                    for _ in 0..nreads + 8 {
+                        for _ in 0..5 {
+                            s.push(Step::Interrupt);
+                        }
+                        s.push(Step::Read(frag));
+                    }
+                    try_script(st, s, true);
+                }
                 // all pairs of injection points
                 for k1 in 0..=nreads {
                     for k2 in k1..=nreads {
@@ -340,6 +429,24 @@ pub fn run_c19(ctx: &mut Ctx) -> ! {
                     st.nontrivial_enum += 1;
                     for (sig, msg) in eval_offset(&prefix, b, &script, frag) {
                         st.fail(Failure { sig, msg: format!("{msg} (frame {}, prefix {})", bits::hex(b), bits::hex(&prefix)), replay: json!({"kind":"offset","hex":bits::hex(b),"prefix":bits::hex(&prefix),"script":script_json(&script),"default_max":frag}) });
+                    }
+                }
+            }
+            // a capture of several frames read through one reader (this frame among three others)
+            if fi % 2 == 0 {
+                let usable = |b: &Vec<u8>| !b.is_empty() && bits::df_supported(b[0] >> 3) && b.len() == bits::required_len(b[0] >> 3) && !matches!(b[0] >> 3, 19 | 20);
+                let mut cap: Vec<Vec<u8>> = (0..4).map(|d| pool[(fi + d * 5) % pool.len()].clone()).filter(usable).collect();
+                if usable(b) {
+                    cap.insert(cap.len().min(1), b.clone());
+                }
+                if cap.len() >= 2 {
+                    for frag in [64usize, 3] {
+                        st.eval();
+                        st.nontrivial_enum += 1;
+                        st.class("capture of several frames");
+                        for (sig, msg) in eval_stream(&cap, frag) {
+                            st.fail(Failure { sig, msg, replay: json!({"kind":"stream","frames":cap.iter().map(|x| bits::hex(x)).collect::<Vec<_>>(),"default_max":frag}) });
+                        }
                     }
                 }
             }
@@ -386,6 +493,77 @@ pub fn run_c19(ctx: &mut Ctx) -> ! {
             st.fail(Failure { sig, msg: format!("{msg} (frame {}, schedule {})", bits::hex(b), script_json(&script)), replay: json!({"kind":"schedule","hex":bits::hex(b),"script":script_json(&script),"default_max":dm}) });
         }
     });
+    // ---- order independence across processes: frames with a Gillham-coded altitude / an identity
+    // code (the fields with table-like decoders) after each of their one- and two-bit neighbours,
+    // and pool frames after other pool frames
+    {
+        let mut rng = ctx.rng(1977, 0);
+        let mut jobs: Vec<(Vec<u8>, Vec<Vec<u8>>)> = vec![];
+        let nbase = ctx.tier.pick(3usize, 40);
+        for k in 0..nbase {
+            for (df, at, len) in [(4u8, 20usize, 13usize), (5, 20, 13), (17, 32 + 9, 12)] {
+                let mut a = gen_frame_df(&mut rng, df);
+                if df == 17 {
+                    let me = gen_me(&mut rng, 11);
+                    a[4..11].copy_from_slice(&me);
+                }
+                // a legal Gillham code (Q = 0, M = 0): take one from a small list, vary by k
+                let code13 = [0x0980u64, 0x0182, 0x1028, 0x0a24, 0x0c62, 0x1580][(k + df as usize) % 6];
+                let code = if len == 13 { code13 } else { ((code13 & 0x1f80) >> 1) | (code13 & 0x3f) };
+                bits::set(&mut a, at, len, code);
+                let mut neigh = vec![];
+                for i in 0..len {
+                    for j in i..len {
+                        let mut b = a.clone();
+                        bits::flip(&mut b, at + i);
+                        if j != i {
+                            bits::flip(&mut b, at + j);
+                        }
+                        neigh.push(b);
+                    }
+                }
+                // ten neighbours per process keep the number of processes small
+                for chunk in neigh.chunks(if ctx.tier == Tier::Quick { 24 } else { 6 }) {
+                    jobs.push((a.clone(), chunk.to_vec()));
+                }
+            }
+        }
+        for i in 0..ctx.tier.pick(40usize, 600) {
+            let a = pool[(i * 13 + 5) % pool.len()].clone();
+            let before: Vec<Vec<u8>> = (1..6).map(|d| pool[(i * 7 + d * 11) % pool.len()].clone()).collect();
+            jobs.push((a, before));
+        }
+        let results: Vec<Vec<(String, String, Value)>> = {
+            let jobs = &jobs;
+            let mut out: Vec<Vec<(String, String, Value)>> = vec![];
+            std::thread::scope(|sc| {
+                let hs: Vec<_> = (0..WORKERS).map(|w| sc.spawn(move || {
+                    let mut v = vec![];
+                    for (ji, (a, before)) in jobs.iter().enumerate() {
+                        if ji % WORKERS != w {
+                            continue;
+                        }
+                        for (sig, msg) in eval_order(a, before) {
+                            v.push((sig, format!("{msg} (frame {})", bits::hex(a)), json!({"kind":"order","hex":bits::hex(a),"before":before.iter().map(|x| bits::hex(x)).collect::<Vec<_>>()})));
+                        }
+                    }
+                    v
+                })).collect();
+                for h in hs {
+                    out.push(h.join().unwrap_or_default());
+                }
+            });
+            out
+        };
+        st.evaluations += jobs.len() as u64;
+        st.nontrivial_enum += jobs.len() as u64;
+        st.class_n("order independence across fresh processes", jobs.len() as u64);
+        for (sig, msg, replay) in results.into_iter().flatten() {
+            if !st.failures.contains_key(&sig) {
+                st.fail(Failure { sig, msg, replay });
+            }
+        }
+    }
     st.notes.insert("frames_in_pool".into(), json!(pool.len()));
     st.exhaustive.push("for every frame of the pool and fragment sizes {64,1,2}: 1-3 consecutive Interrupted before every read call, and all pairs of injection points".into());
     finish(
